@@ -142,7 +142,7 @@ pub fn run(cx: &mut Ctx) {
         }
     }
     // -------------------------------------- random sequences, several regions alive at once
-    let nrand = cx.tier.pick(20usize, 2000, 50_000);
+    let nrand = cx.tier.pick(20usize, 2000, 200_000);
     let rdepth = cx.tier.pick(6usize, 10, 12);
     for i in 0..nrand {
         idx += 1;
